@@ -99,8 +99,9 @@ def exact_int(S, iv, t):
         r = (ra[0] + rb[0], ra[1] + rb[1]) if k == "iadd" else (ra[0] - rb[1], ra[1] - rb[0])
         tr = INT_RANGES.get(t[3]) if len(t) > 3 else None
         if tr is not None and not (tr[0] <= r[0] and r[1] <= tr[1]):
-            # may wrap / trap: the caller decides whether the trap is an obligation; not exact here
-            return None
+            # may wrap / trap unless this path is guarded by the operation's own no-overflow check
+            if ("Add" if k == "iadd" else "Sub", t[1], t[2], t[3]) not in iv.nowrap:
+                return None
         return a.add(b, 1 if k == "iadd" else -1)
     if k == "imul":
         a, b = t[1], t[2]
@@ -131,6 +132,18 @@ def exact_int(S, iv, t):
                 return None       # abs(MIN) overflows
             return x.scale(-1)
         return None
+    if k in ("isatsub", "isatadd", "iwrapadd", "iwrapsub"):
+        # exact when the mathematical result provably stays inside the type
+        a, b = exact_int(S, iv, t[1]), exact_int(S, iv, t[2])
+        if a is None or b is None:
+            return None
+        ra, rb = iv.range(t[1]), iv.range(t[2])
+        add = k in ("isatadd", "iwrapadd")
+        r = (ra[0] + rb[0], ra[1] + rb[1]) if add else (ra[0] - rb[1], ra[1] - rb[0])
+        tr = INT_RANGES.get(t[3])
+        if tr is None or not (tr[0] <= r[0] and r[1] <= tr[1]):
+            return None
+        return a.add(b, 1 if add else -1)
     if k in ("ite", "b"):
         return None
     if k in ("iwrapadd", "iwrapsub", "iwrapmul", "irem", "idiv", "ishl", "ishr", "ibitand", "ibitor", "ibitxor"):
@@ -156,6 +169,19 @@ def literal_constraints(S, iv, atom, pol):
                 return [[d, d.scale(-1)]]
             return [[d.add(Lin({}, 1))], [d.scale(-1).add(Lin({}, 1))]]
         return None
+    if atom[0] == "overflow":
+        # overflow(op, a, b, ty): the mathematical result leaves the type's range
+        op, a, b, ty = atom[1], atom[2], atom[3], atom[4]
+        la, lb = exact_int(S, iv, a), exact_int(S, iv, b)
+        tr = INT_RANGES.get(ty)
+        if la is None or lb is None or tr is None or op not in ("Add", "Sub"):
+            return None
+        r = la.add(lb, 1 if op == "Add" else -1)
+        below = r.add(Lin({}, -tr[0] + 1))            # r <= lo-1
+        above = Lin({}, tr[1] + 1).add(r, -1)         # hi+1 <= r
+        if pol:
+            return [[below], [above]]
+        return [[Lin({}, tr[0]).add(r, -1), r.add(Lin({}, -tr[1]))]]
     if atom[0] == "fits":
         x = exact_int(S, iv, atom[1])
         tr = INT_RANGES.get(atom[3])
@@ -193,3 +219,51 @@ def pc_regions(S, pc, leaf_types=None, invariants=None):
 def to_oct(lins):
     """[(Lin <= 0)] -> [(dict var->coeff, bound)]"""
     return [(dict(l.c), -l.k) for l in lins]
+
+
+def entails_range(S, pc, term, lo, hi, leaf_types=None, invariants=None):
+    """Does the path predicate `pc` (with the variables' declared ranges / invariants as domain) force
+    lo <= term <= hi?  Decided relationally in the octagon domain.  True / False / None (undecided)."""
+    from .octagon import conj_empty
+    regs = pc_regions(S, pc, leaf_types, invariants)
+    if regs is None:
+        return None
+    for cube_regs in regs:
+        iv = Intervals(S, leaf_types, invariants)
+        iv.assume(pc)
+        l = exact_int_loose(S, iv, term)
+        if l is None:
+            return None
+        cons = to_oct(cube_regs)
+        vars_ = set(l.c)
+        for lin, _c in cons:
+            vars_ |= set(lin)
+        vars_ = list(vars_)
+        dom = []
+        iv0 = Intervals(S, leaf_types, invariants)
+        for v in vars_:
+            r = iv0.range(v)
+            if r[1] < FULL[1]:
+                dom.append(({v: 1}, r[1]))
+            if r[0] > FULL[0]:
+                dom.append(({v: -1}, -r[0]))
+        above = (dict((v, -k) for v, k in l.c.items()), l.k - (hi + 1))     # term >= hi+1
+        below = (dict(l.c), (lo - 1) - l.k)                                  # term <= lo-1
+        for extra in (above, below):
+            r = conj_empty(vars_, cons + dom + [extra])
+            if r is None:
+                return None
+            if not r:
+                return False
+    return True
+
+
+def exact_int_loose(S, iv, t):
+    """Like exact_int but the outermost add/sub is taken mathematically (its own overflow is the
+    question being asked)."""
+    if t[0] in ("iadd", "isub") and len(t) > 3:
+        a, b = exact_int(S, iv, t[1]), exact_int(S, iv, t[2])
+        if a is None or b is None:
+            return None
+        return a.add(b, 1 if t[0] == "iadd" else -1)
+    return exact_int(S, iv, t)
